@@ -471,6 +471,8 @@ fn dfs(prog: &Prog, max_schedules: u64) -> (u64, u64, bool) {
     loop {
         let (calls, words, decisions, cont) = run_controlled(prog, &prefix, Box::new(|_, _| 0));
         count += 1;
+        out::count("scheduler_decision_points", decisions.len() as i128);
+        out::count("decision_alternatives_seen", decisions.iter().map(|d| d.1 as i128).sum::<i128>());
         if cont {
             contended += 1;
         }
@@ -587,6 +589,8 @@ pub fn run(args: &Args) {
                 };
                 let (calls, words, decisions, c) = run_controlled(&p, &[], Box::new(policy));
                 n += 1;
+                out::count("scheduler_decision_points", decisions.len() as i128);
+                out::count("decision_alternatives_seen", decisions.iter().map(|d| d.1 as i128).sum::<i128>());
                 if c {
                     cont += 1;
                 }
